@@ -173,6 +173,8 @@ pub struct XargsObs {
     pub child_stdin: Vec<usize>,
     /// echo mode: what xargs wrote to its own standard output
     pub stdout: Vec<u8>,
+    /// how many extra environment variables the run had (see `crate::ambient`)
+    pub ambient_env: usize,
 }
 
 impl XargsObs {
@@ -346,6 +348,7 @@ pub fn run_xargs_with(sc: &XargsScenario, plan: &[ReadOp], ctx: &mut Ctx) -> Xar
         child_log,
         child_stdin,
         stdout,
+        ambient_env: sc.extra.ambient.env.len(),
     }
 }
 
